@@ -25,9 +25,13 @@ IsEvent(e) == l <= Len(Rec) /\ Rec[l].ev = e /\ l' = l + 1
 TReset == IsEvent("reset") /\ toks' = <<>>
 
 \* every produced token must verify under its root (Complete) - checked at each step
+\* the API's revocation identifiers: identifier j is the signature of block j (recorded as the label j), whether
+\* the token is read through Biscuit, through UnverifiedBiscuit, or is the in-memory object the operation returned
+BlockSigLabels(t) == [j \in 1..Len(t.blocks) |-> j]
 Produced(t, root) ==
     /\ t = Rec[l].tok              \* the real token, projected, is exactly the spec's token
     /\ Verify(t, root)
+    /\ Rec[l].rev_v = BlockSigLabels(t) /\ Rec[l].rev_u = BlockSigLabels(t) /\ Rec[l].rev_t = BlockSigLabels(t)
     /\ toks' = Append(toks, [tok |-> t, root |-> root])
 
 TBuild ==
